@@ -6,7 +6,6 @@ import (
 	"fmt"
 	"math/rand"
 	"os"
-	"sort"
 	"strings"
 	"time"
 
@@ -162,21 +161,7 @@ func Run(c *core.Ctx) {
 	if err != nil || r.Violated != "" || r.ErrText != "" || r.TimedOut {
 		core.Fatalf("history simulation failed: %v %s", err, r.Brief())
 	}
-	sort.Strings(lines)
-	var walks [][]json.RawMessage
-	for i, l := range lines {
-		if i+1 < len(lines) && (lines[i+1] == l || strings.HasPrefix(lines[i+1], l+",")) {
-			continue
-		}
-		var h []json.RawMessage
-		if json.Unmarshal([]byte(l+"]"), &h) == nil && len(h) > 0 {
-			walks = append(walks, h)
-		}
-	}
-	rng.Shuffle(len(walks), func(i, j int) { walks[i], walks[j] = walks[j], walks[i] })
-	if len(walks) > num {
-		walks = walks[:num]
-	}
+	walks := core.Behaviours(lines, num, rng)
 	c.Add("simulated_behaviours", int64(len(walks)))
 	// real providers
 	dir, err := os.MkdirTemp("", "vhist-")
